@@ -51,4 +51,18 @@ CLAIMS["C06"] = {
     "note": "Trusts: gen_vector samples in bounds (C08); Individual(vector) copies the vector (checked in C05/C08 rules); pumping argument for attempts > 2.",
 }
 
+CLAIMS["C01"] = {
+    "category": "model_checking",
+    "technique": "finite automaton extracted from both compare() bodies by abstract interpretation in the order-symbol domain; exhaustive product with the reference automaton of textbook dominance",
+    "text": "Both comparators touch costs only through comparisons, so their verdict is a function of the marker case and the word of "
+            "per-coordinate order symbols {<,=,>}. The check extracts that function from the source as a finite automaton (abstract "
+            "environments at the loop head = states; scale factors tracked by value identity so both sides must be scaled by the same "
+            "positive epsilon) and explores the product with the reference automaton exhaustively for 25 marker pairs: agreement on every "
+            "reachable state means agreement for every vector length and every pair of cost vectors, hence the strict-partial-order laws "
+            "of the reference transfer; the epsilon comparator must additionally name a loser on the all-equal word. Exact for the "
+            "abstraction (total order on finite floats), which is why this is model checking of a static abstraction rather than testing.",
+    "note": "Trusts: finite floats without NaN; positive epsilons; x/eps order-preserving up to rounding (granted by the property); markers "
+            "represented by {0,+-1,+-2}, which realise every truth assignment of the cascade's atoms. No trace is replayed against the running implementation.",
+}
+
 NOT_APPLICABLE = {}
